@@ -536,8 +536,11 @@ def r14_2(ctx):
         return
     none_e = enum_edges(cr, lib, "std::option::Option", lambda vs: "None" in vs and "Some" not in vs,
                         src_pred=lambda c: has_field(C.trace(cr, c.place, through_fields=True), "listening") or has_field(c.src, "listening"))
-    sw_true = bool_call_edges(cr, lib, "std::str::<impl str>::starts_with", True)
-    n_sw = len(calls_to(cr, "std::str::<impl str>::starts_with"))
+    # "a starts with b": `a.starts_with(b)` true, or `a.strip_prefix(b)` is Some
+    SP = "std::str::<impl str>::strip_prefix"
+    sw_true = bool_call_edges(cr, lib, "std::str::<impl str>::starts_with", True) | \
+        enum_edges(cr, lib, "std::option::Option", lambda vs: vs == {"Some"}, src_pred=lambda c: bool(c.src) and all(leaf_is_call(l, SP) for l in c.src))
+    n_sw = len(calls_to(cr, ("std::str::<impl str>::starts_with", SP)))
     if n_sw == 0:
         # iterator form: `stored.keys().find(|k| k.starts_with(tag) || tag.starts_with(k))` (or any / position): the conflict test lives
         # in the predicate closure; the store must sit on the nothing-found edge
@@ -558,7 +561,7 @@ def r14_2(ctx):
     # both directions are tested: starts_with(k, tag) and starts_with(tag, k)
     dirs = set()
     p_tag = cr.param_index_by_name("tag")
-    for bb, t in calls_to(cr, "std::str::<impl str>::starts_with"):
+    for bb, t in calls_to(cr, ("std::str::<impl str>::starts_with", SP)):
         a0 = any(l.kind == "param" and l.data == p_tag for l in C.trace(cr, t["args"][0]))
         a1 = any(l.kind == "param" and l.data == p_tag for l in C.trace(cr, t["args"][1]))
         dirs.add((a0, a1))
@@ -829,9 +832,14 @@ def r14_6(ctx):
                           site=ctx.site(ts, 0))
     inj = body(ctx, "tag_inject")
     if inj:
-        pushes_val = [(bb, t) for bb, t in calls_to(inj, "std::string::String::push_str")
-                      if has_call(C.trace(inj, t["args"][1], through_fields=True), ROLE["replace_line_ending"])]
-        key_push = [(bb, t) for bb, t in calls_to(inj, "std::vec::Vec::<T, A>::push")] + \
+        # where normalised tag content is emitted: pushed onto the result string, or onto a list of pieces that is concatenated later
+        pushes_val = [(bb, t) for bb, t in calls_to(inj, ("std::string::String::push_str", "std::vec::Vec::<T, A>::push"))
+                      if has_call(deep_leaves(inj, t["args"][1], through_fields=True), ROLE["replace_line_ending"])]
+        # where a used tag is queued for removal: a push / insert of something that is neither content nor a slice of the line
+        is_piece = lambda t: any(l.kind == "call" and (C.callee_name(l.data).endswith("Index<I> for str>::index") or
+                                                       C.callee_name(l.data) == ROLE["replace_line_ending"])
+                                 for l in deep_leaves(inj, t["args"][1], through_fields=True))
+        key_push = [(bb, t) for bb, t in calls_to(inj, "std::vec::Vec::<T, A>::push") if not is_piece(t)] + \
                    [(bb, t) for bb, t in calls_to(inj, "std::collections::HashSet::<T, S, A>::insert")]
         queue_ids = set()
         for bb, t in key_push:
@@ -888,8 +896,9 @@ def r14_6(ctx):
         # first occurrence only: positions come from str::find (not rfind / match_indices)
         cl_finds = []
         for b2 in [inj] + lib.closures_of(inj):
-            cl_finds += [C.callee_name(t) for bb, t in b2.calls() if re.search(r"::(find|rfind|match_indices|rmatch_indices|matches|split)$", C.callee_name(t))]
-        if cl_finds == ["std::str::<impl str>::find"]:
+            cl_finds += [C.callee_name(t) for bb, t in b2.calls()
+                         if re.search(r"::(find|rfind|match_indices|rmatch_indices|matches|split|split_once|rsplit_once|rsplit)$", C.callee_name(t))]
+        if cl_finds in (["std::str::<impl str>::find"], ["std::str::<impl str>::split_once"]):
             ctx.ok("tag positions come from a single forward str::find per tag", site=ctx.site(inj, 0))
         else:
             ctx.violation(["tag-search", ",".join(cl_finds)], "tag occurrences are located with %s (first occurrence via find documented)" % cl_finds, site=ctx.site(inj, 0))
@@ -1136,9 +1145,23 @@ def r01_6(ctx):
         ctx.violation(["separator-order"], "the in-loop separator is no longer written before the content of the same iteration", site=ctx.site(ri, cbb))
     # has_tail == true exactly on the path that re-queues the terminating line
     stores = [bb for bb, si, st in ri.stmts() if st["k"] == "assign" and st["lhs"]["p"] and st["lhs"]["p"][-1].get("name") == "execute_tail_line"]
-    trues = [(rec[1], rec[3]["lhs"]["l"]) for l in range(len(ri.locals)) for rec in ri.defs().get(l, [])
-             if ri.locals[l]["ty"] == "bool" and ri.local_name(l) == "has_tail" and rec[0] == "assign" and rec[3]["rv"]["k"] == "use"
-             and C.op_const(rec[3]["rv"]["op"]) == "true"]
+    # where `has_tail` becomes true: a literal assigned to it, or to a local that only moves into it (the return value of a spliced
+    # `fn stash_tail_line(..) -> bool`)
+    trues = []
+    seen_l = set()
+    work = [l for l in range(len(ri.locals)) if ri.locals[l]["ty"] == "bool" and ri.local_name(l) == "has_tail"]
+    while work:
+        l = work.pop()
+        if l in seen_l:
+            continue
+        seen_l.add(l)
+        for rec in ri.defs().get(l, []):
+            if rec[0] == "assign" and rec[3]["rv"]["k"] == "use":
+                op_ = rec[3]["rv"]["op"]
+                if C.op_const(op_) == "true":
+                    trues.append((rec[1], l))
+                elif op_.get("k") in ("copy", "move") and not op_["pl"]["p"]:
+                    work.append(op_["pl"]["l"])
     if is_some_form and stores:
         # has_tail == tail.is_some(); that the tail is re-queued whenever it is Some is R16.4 (= R01.5)
         ctx.ok("has_tail is `tail.is_some()`; re-queuing on the Some path is R01.5", site=ctx.site(ri, stores[0]))
@@ -1190,6 +1213,15 @@ def _component_deltas(prog, b):
     fidx = {l: i for i, l in enumerate(flags)}
     results = []      # (bb of the Ok return, frozenset deltas | None for unknown)
     p_self = 1
+
+    def lit(op):
+        """the literal an operand denotes: directly, or through the parameter local of a spliced helper (`replace_ext(p, "")`)"""
+        c = C.op_const(op)
+        if c is not None:
+            return c
+        lv = C.trace(b, op)
+        cs = {C.op_const(l.data) for l in lv if l.kind == "const"}
+        return cs.pop() if len(cs) == 1 and all(l.kind == "const" for l in lv) else None
 
     def step_block(bb, st, env):
         """apply the statements + terminator effects of block bb to the abstract state `st` (dict local -> (deltas, dot_pending))"""
@@ -1262,7 +1294,7 @@ def _component_deltas(prog, b):
                 if tl is not None:
                     d, pend = st[tl]
                     if d is not None:
-                        if C.op_const(t["args"][1]) == '""':
+                        if lit(t["args"][1]) == '""':
                             d = frozenset(x - 1 for x in d)
                         else:
                             d = frozenset(x for x in d) | frozenset(x + 1 for x in d)
@@ -1296,7 +1328,7 @@ def _component_deltas(prog, b):
                 if cur is not None:
                     d = cur[0]
                     if d is not None and d != "EMPTY":
-                        if C.op_const(t["args"][1]) == '""':
+                        if lit(t["args"][1]) == '""':
                             d = frozenset(x - 1 for x in d)
                         else:
                             d = frozenset(x for x in d) | frozenset(x + 1 for x in d)
@@ -1450,6 +1482,18 @@ def r10_5(ctx):
                 a1 = C.trace(tr, l.data["args"][1])
                 if has_field(a0, "p") and not has_field(a0, "b") and a1 and all(x.kind == "param" and x.data == p_ext for x in a1):
                     continue
+            if l.kind == "field" and has_field([l], "p") and not has_field([l], "b"):
+                # `let mut j = self.p.clone(); j.push(ext); j` is join spelled in place: every path from the copy of self.p to this
+                # use passes a PathBuf::push(copy, ext), and nothing else mutates the copy
+                copies = [cb for cb, ct in tr.calls() if C.callee_name(ct) in ("<std::path::PathBuf as std::clone::Clone>::clone",
+                                                                                "std::path::Path::to_path_buf", "std::borrow::ToOwned::to_owned")
+                          and has_field(C.trace(tr, ct["args"][0], through_fields=True), "p")]
+                pushes = [pb for pb, pt in calls_to(tr, "std::path::PathBuf::push")
+                          if (lambda a1: a1 and all(x.kind == "param" and x.data == p_ext for x in a1))(C.trace(tr, pt["args"][1]))]
+                other_mut = [ob for ob, ot in tr.calls() if C.callee_name(ot).startswith("std::path::PathBuf::") and ob not in pushes and
+                             ot.get("arg_tys") and ot["arg_tys"][0]["ty"].startswith("&mut")]
+                if copies and pushes and not other_mut and bb not in C.after_edges(tr, out_edges(tr, copies), cut=out_edges(tr, pushes)):
+                    continue
             bad.append(repr(l))
         if bad or not lv:
             ctx.violation([tr.name, "resolve-candidates"], "try_resolve can return a path other than `ext` / `self.p.join(ext)`: %s" % bad[:3], site=ctx.site(tr, bb))
@@ -1532,6 +1576,44 @@ def r16_7(ctx):
             ctx.ok("detect_from only when no directive is open", site=ctx.site(it, bb))
 
 
+@rule("C15", "R15.7", floor=2)
+def r15_7(ctx):
+    """a detected or continued directive is always kept open: in iterate_directive, from the `Some` edge of detect_from's result and from
+    the `Ok` edge of add_line's result, a normal return is reached only past a store of `Some(..)` into `cur_directive` (or through the
+    prefix error). Whether the directive stays open must not depend on the mode, the pass or the directive type — otherwise its
+    continuation lines are re-read as fresh lines"""
+    lib = ctx.lib
+    it = body(ctx, "iterate_directive")
+    if not it:
+        return
+    stores = set()
+    for bb, si, st in it.stmts():
+        if st["k"] == "assign" and st["lhs"]["p"] and st["lhs"]["p"][-1].get("name") == "cur_directive":
+            lv = C.trace(it, st["rv"]["op"]) if st["rv"]["k"] == "use" else [1]
+            if st["rv"]["k"] == "aggregate" and st["rv"]["agg"].get("variant") == "None":
+                continue
+            if st["rv"]["k"] == "use" and not lv:
+                continue        # a None aggregate carries nothing
+            stores.add(bb)
+    for bb, t in it.calls():
+        if t["dest"]["p"] and t["dest"]["p"][-1].get("name") == "cur_directive":
+            stores.add(bb)
+    det = enum_edges(it, lib, "std::option::Option", lambda vs: vs == {"Some"}, src_pred=lambda c: has_call(c.src, ROLE["detect_from"]))
+    add = enum_edges(it, lib, "std::result::Result", lambda vs: vs == {"Ok"}, src_pred=lambda c: has_call(c.src, ROLE["add_line"]))
+    if not stores or not det or not add:
+        ctx.anchor_missing("store into cur_directive / test of detect_from's and add_line's result in iterate_directive")
+        return
+    oks = set(ok_sites(it)) | {bb for bb in it.normal_blocks() if it.term(bb)["k"] == "return"}
+    for nm, edges in (("detect_from found a directive", det), ("add_line accepted the line", add)):
+        reach = C.after_edges(it, edges, cut=out_edges(it, stores) | out_edges(it, err_sites(it)))
+        bad = sorted(bb for bb in reach if bb in oks and bb not in stores)
+        if bad:
+            ctx.violation([it.name, "directive-not-kept", nm.split()[0]], "after %s, iterate_directive can return without keeping the directive "
+                          "in cur_directive (its continuation lines would be read as fresh lines)" % nm, site=ctx.site(it, bad[0]))
+        else:
+            ctx.ok("after `%s` the directive is stored in cur_directive on every normal path" % nm, site=ctx.site(it, min(e[0] for e in edges)))
+
+
 @rule("C01", "R01.10", floor=1)
 def r01_10(ctx):
     """a temp directive always reaches the temp writer: execute_directive_temp returns Ok only past a write_temp_file call (whether the
@@ -1577,6 +1659,31 @@ def r11_9(ctx):
                           "may be inspected / replaced)" % (role_name, bad), site=ctx.site(b, 0))
         else:
             ctx.ok("%s works on the extension of the full name only" % role_name, site=ctx.site(b, 0))
+
+
+def _is_found_position(b, leaf):
+    """the byte offset of the FIRST occurrence of a pattern: `s.find(p)`, or `before.len()` with `(before, _) = s.split_once(p)`"""
+    if leaf.kind != "call":
+        return False
+    nm = C.callee_name(leaf.data)
+    if nm == "std::str::<impl str>::find":
+        return True
+    if nm != "std::str::<impl str>::len" or not leaf.data["args"]:
+        return False
+    p = C.op_place(leaf.data["args"][0])
+    seen = set()
+    while p is not None and p["l"] not in seen:
+        seen.add(p["l"])
+        tup = [e for e in p["p"] if e["k"] == "field" and e.get("owner") == "(tuple)"]
+        if tup:
+            src = C.trace(b, {"l": p["l"], "p": []})
+            return tup[-1]["i"] == 0 and bool(src) and all(x.kind == "call" and C.callee_name(x.data) == "std::str::<impl str>::split_once" for x in src)
+        ds = [r for r in b.defs().get(p["l"], []) if r[0] == "assign"]
+        if len(ds) != 1:
+            return False
+        rv = ds[0][3]["rv"]
+        p = rv["pl"] if rv["k"] in ("ref", "copyforderef") else C.op_place(rv["op"]) if rv["k"] == "use" else None
+    return False
 
 
 @rule("C14", "R14.8", floor=1)
@@ -1647,7 +1754,7 @@ def r14_8(ctx):
                         continue
                     found += 1
                     for l in lv:
-                        if not (l.kind == "call" and C.callee_name(l.data) == "std::str::<impl str>::find"):
+                        if not _is_found_position(b2, l):
                             bad.append(repr(l))
         if found == 0:
             ctx.unverified("element construction of the sorted candidates not found", site=ctx.site(inj, bb))
